@@ -256,6 +256,14 @@ static std::string decoded_text(const PointCloud &pc, int64_t rem) {
     std::vector<uint8_t> buf(a->byte_stride()), all;
     for (PointIndex p(0); p < pc.num_points(); ++p) { a->GetMappedValue(p, buf.data()); all.insert(all.end(), buf.begin(), buf.end()); }
     t += " " + S(a->attribute_type()) + "." + S(a->data_type()) + "." + S(a->num_components()) + "." + S(a->normalized()) + "." + U(a->unique_id()) + "." + hex(all.data(), all.size());
+    if (a->GetAttributeTransformData() && a->GetAttributeTransformData()->transform_type() == ATTRIBUTE_QUANTIZATION_TRANSFORM) {
+      AttributeQuantizationTransform qt;    // a skipped attribute carries the parameters needed to dequantize it
+      if (qt.InitFromAttribute(*a)) {
+        t += ".T" + S(qt.quantization_bits());
+        for (int c = 0; c < a->num_components(); c++) { float m = qt.min_value(c); uint32_t b; memcpy(&b, &m, 4); t += "," + U(b); }
+        float rg = qt.range(); uint32_t rb; memcpy(&rb, &rg, 4); t += "," + U(rb);
+      }
+    }
   }
   return t + " " + S(rem);
 }
@@ -268,12 +276,17 @@ static bool in_model(const std::vector<uint8_t> &b) {
   if (b.size() >= 15) { uint32_t np; memcpy(&np, b.data() + 11, 4); if (np > 5000 && np < 0x80000000u) return false; }
   return true;
 }
-static void pc_decode_case(Out &o, const std::vector<uint8_t> &b) {
+// skip: attribute types decoded with SetSkipAttributeTransform (the attribute then is its quantized portable form: DT_UINT32,
+// the stream's unique id (fix 444a932), the quantization parameters attached)
+static void pc_decode_case(Out &o, const std::vector<uint8_t> &b, const std::vector<int> &skip = {}) {
   if (!in_model(b)) return;
   DecoderBuffer db; db.Init((const char *)b.data(), b.size());
-  Decoder d; auto res = d.DecodePointCloudFromBuffer(&db);
+  Decoder d; std::string sk;
+  for (size_t i = 0; i < skip.size(); i++) { d.SetSkipAttributeTransform((GeometryAttribute::Type)skip[i]); sk += (i ? "," : "") + S(skip[i]); }
+  auto res = d.DecodePointCloudFromBuffer(&db);
   std::string t = res.ok() ? decoded_text(*res.value(), db.remaining_size()) : std::string("fail");
-  o.c("kdpc " + hex(b.data(), b.size()), t);
+  if (skip.empty()) o.c("kdpc " + hex(b.data(), b.size()), t);
+  else o.c("kdpcs " + sk + " " + hex(b.data(), b.size()), t);
 }
 static long g_d9 = 0, g_pc_ok = 0;
 // search oracle: the decoded cloud is the input cloud under ONE permutation of the points, integer attributes
@@ -336,17 +349,29 @@ static void pc_round(Out &o, Rng &r, bool big) {
   EncoderBuffer eb; bool ok = encode(g, *pc, eb);
   const std::string gt = cloud_text(g);
   o.c("kpc " + gt, ok ? hex(eb.data(), eb.size()) : std::string("fail"));
+  // a signed component spanning >= 2^31 must make the encode fail (D9, fix e50b8ba); everything else generated here must encode
+  if (d9) { g_d9++; if (ok) o.fail("KD encoder accepted an int32 component spanning >= 2^31: " + gt); return; }
   if (!ok) { o.fail("KD encoder failed on a valid cloud: " + gt); return; }
   std::vector<uint8_t> b(eb.data(), eb.data() + eb.size());
   {
     DecoderBuffer db; db.Init((const char *)b.data(), b.size()); Decoder d; auto res = d.DecodePointCloudFromBuffer(&db);
-    if (!res.ok()) { if (d9) { g_d9++; o.note("D9 (int32 component spanning >= 2^31: encodes, cannot be decoded): " + gt.substr(0, 200)); } else o.fail("KD decoder rejects the encoder's stream: " + gt); }
+    if (!res.ok()) o.fail("KD decoder rejects the encoder's stream: " + gt);
     else { if (db.remaining_size() != 0) o.fail("KD stream not consumed exactly: " + gt); g_pc_ok++; check_roundtrip(o, g, *res.value(), gt); }
   }
   std::vector<uint8_t> tr = b; int junk = (int)r.below(4); for (int i = 0; i < junk; i++) tr.push_back((uint8_t)r.next());
   pc_decode_case(o, tr);
+  {  // decode with the transform of some attribute types skipped
+    std::vector<int> skip; for (auto &a : g.atts) if (a.dt == DT_FLOAT32 && r.chance(70)) { bool have = false; for (int t : skip) have |= t == (int)a.type; if (!have) skip.push_back((int)a.type); }
+    if (skip.empty() && r.chance(20)) skip.push_back((int)GeometryAttribute::GENERIC);
+    if (!skip.empty()) { pc_decode_case(o, b, skip); if (r.chance(40)) pc_decode_case(o, corrupt(r, b, 16), skip); }
+  }
   int nc = 2 + (int)r.below(3);
   for (int i = 0; i < nc; i++) pc_decode_case(o, corrupt(r, b, r.chance(75) ? 16 : 0));
+  // the parameter blocks at the end of the stream (quantization data, signed minima as varints): extreme varints in the last bytes
+  // (a minimum of INT32_MAX made int32(u) + min overflow before fix 3b2dbf5; now rejected)
+  { static const uint8_t pats[][5] = {{0xfe, 0xff, 0xff, 0xff, 0x0f}, {0xff, 0xff, 0xff, 0xff, 0x0f}, {0xfd, 0xff, 0xff, 0xff, 0x0f}, {0x80, 0x80, 0x80, 0x80, 0x08}};
+    std::vector<uint8_t> c = b; size_t back = 1 + r.below(std::min<size_t>(c.size(), 6)); std::vector<uint8_t> tail(c.end() - back + 1, c.end()); c.resize(c.size() - back);
+    const uint8_t *pt = pats[r.below(4)]; c.insert(c.end(), pt, pt + 5); c.insert(c.end(), tail.begin(), tail.end()); pc_decode_case(o, c); }
 }
 
 int main(int argc, char **argv) {
@@ -377,6 +402,33 @@ int main(int argc, char **argv) {
   if (mode == "all" || mode == "pc") {
     const int n_pc = thorough ? 3000 : 350;
     for (int i = 0; i < n_pc; i++) pc_round(o, r, i % 5 == 0);
+    // the boundary of the signed-span guard (D9, fix e50b8ba): max - min = 2^31 - 1 encodes and round-trips, 2^31 must fail
+    for (int k = 0; k < 12; k++) {
+      Cloud g; g.np = 2 + (int)r.below(4); g.speed = (int)r.below(11);
+      Att a; a.type = GeometryAttribute::GENERIC; a.dt = DT_INT32; a.nc = 1 + (int)r.below(3); a.norm = false; a.uid = 7;
+      const bool too_large = k % 2 == 1; const int badc = (int)r.below(a.nc);
+      const int64_t lo = k < 4 ? INT32_MIN : (int64_t)INT32_MIN + (int64_t)r.below(1000);
+      const int64_t span = too_large ? (1ll << 31) : (1ll << 31) - 1;
+      for (int p = 0; p < g.np; p++) for (int c = 0; c < a.nc; c++) {
+        int64_t v = c != badc ? (int64_t)r.range(-5, 5) : (p == 0 ? lo : (p == 1 ? std::min<int64_t>(lo + span, INT32_MAX) : lo + (int64_t)r.below((uint64_t)span)));
+        if (c == badc && p == 1 && lo + span > INT32_MAX) v = INT32_MAX;
+        int32_t w = (int32_t)v; for (int j = 0; j < 4; j++) a.rows.push_back((uint8_t)((uint32_t)w >> (8 * j)));
+      }
+      // when lo + span exceeds INT32_MAX the cloud spans less than requested: classify by the actual values
+      int64_t mn = INT64_MAX, mx = INT64_MIN; for (int p = 0; p < g.np; p++) { int32_t w; memcpy(&w, a.rows.data() + ((size_t)p * a.nc + badc) * 4, 4); mn = std::min<int64_t>(mn, w); mx = std::max<int64_t>(mx, w); }
+      const bool expect_fail = mx - mn > INT32_MAX;
+      g.atts.push_back(a);
+      if (r.chance(50)) { Att b; b.type = GeometryAttribute::COLOR; b.dt = DT_UINT8; b.nc = 3; b.norm = true; b.uid = 9; for (int i = 0; i < g.np * 3; i++) b.rows.push_back((uint8_t)r.next()); g.atts.push_back(b); }
+      std::unique_ptr<PointCloud> pc = build(g); EncoderBuffer eb; bool ok = encode(g, *pc, eb);
+      o.c("kpc " + cloud_text(g), ok ? hex(eb.data(), eb.size()) : std::string("fail"));
+      if (ok == expect_fail) o.fail(std::string("KD signed-span guard: encode ") + (ok ? "succeeded" : "failed") + " for span " + S(mx - mn) + ": " + cloud_text(g));
+      if (ok) {
+        std::vector<uint8_t> b(eb.data(), eb.data() + eb.size());
+        DecoderBuffer db; db.Init((const char *)b.data(), b.size()); Decoder d; auto res = d.DecodePointCloudFromBuffer(&db);
+        if (!res.ok()) o.fail("KD decoder rejects the encoder's stream: " + cloud_text(g)); else check_roundtrip(o, g, *res.value(), cloud_text(g));
+        pc_decode_case(o, b);
+      } else g_d9++;
+    }
     {  // a float attribute without quantization cannot use the kd-tree method: the Encoder reports an error
       Cloud g; g.np = 3; g.speed = 3; Att a; a.type = GeometryAttribute::POSITION; a.dt = DT_FLOAT32; a.nc = 3; a.norm = false; a.uid = 0; a.q = -1;
       for (int k = 0; k < 9; k++) { float f = (float)k; uint32_t bb; memcpy(&bb, &f, 4); for (int j = 0; j < 4; j++) a.rows.push_back((uint8_t)(bb >> (8 * j))); }
@@ -386,6 +438,6 @@ int main(int argc, char **argv) {
       if (ok) o.fail("KD kd-tree method accepted an unquantized float attribute");
     }
   }
-  o.note("tree points encoded " + S(g_tree_pts) + ", tree clouds with >= 64 points " + S(g_tree_big) + ", whole clouds round-tripped " + S(g_pc_ok) + ", D9 clouds " + S(g_d9));
+  o.note("tree points encoded " + S(g_tree_pts) + ", tree clouds with >= 64 points " + S(g_tree_big) + ", whole clouds round-tripped " + S(g_pc_ok) + ", clouds with a signed span >= 2^31 (encode must fail) " + S(g_d9));
   return 0;
 }
